@@ -7,7 +7,7 @@ export GOFLAGS=-mod=mod GOPROXY=off GOSUMDB=off GOTOOLCHAIN=local
 F="$1"; PKG="$2"; REPO="${3:-/repo}"
 OV=$(mktemp /tmp/vpov.XXXXXX.json)
 printf '{"Replace":{"%s/%s/zz_vp_finding_test.go":"%s/%s"}}' "$REPO" "$PKG" "$(pwd)" "$F" > "$OV"
-(cd "$REPO" && timeout 900 go test -vet=off -count=1 -overlay "$OV" -run 'TestVPFinding' "./$PKG" 2>&1 | tail -15)
+(cd "$REPO" && timeout 900 go test -vet=off -count=1 -overlay "$OV" -run 'TestVPFinding|TestKeeperTestSuite/TestVPFinding' "./$PKG" 2>&1 | tail -15)
 RC=${PIPESTATUS[0]}
 rm -f "$OV"
 exit $RC
